@@ -20,7 +20,8 @@
 (*         none / name (e1) / labels (grp=g) / absent (zz) /               *)
 (*         chase (asks e1; once it is GIVEN e1 also asks e2) /             *)
 (*         grow (asks by label; then additionally by name for every object *)
-(*         it was given) / count n (a counter kept in the context: changes *)
+(*         it was given) / relabel (one requirement whose match labels     *)
+(*         change once it was supplied) / count n (a counter kept in the context: changes *)
 (*         its requirement n times, then repeats it; n = 9 never does)     *)
 (*   res   results: none / normal / warning / fatal / warnfatal, target rt *)
 (*   cond  conditions: none / own type / shared type, status cs, target ct *)
@@ -83,10 +84,11 @@ ProgGrow   == P("grow",   "reorder", "-", "set",  "grow",   0, "warning",   "xr"
 ProgCount2 == P("count2", "add",     "a", "keep", "count",  2, "warning",   "xr",    "none",   "True",    "xr",    TRUE)
 ProgCount4 == P("count4", "keep",    "-", "keep", "count",  4, "none",      "xr",    "none",   "True",    "xr",    FALSE)
 ProgNever  == P("never",  "add",     "b", "keep", "count",  9, "normal",    "xr",    "own",    "True",    "xr",    FALSE)
+ProgRelabel == P("relabel", "add",    "b", "keep", "relabel", 0, "none",     "xr",    "none",   "True",    "xr",    FALSE)
 ProgFatal  == P("fatal",  "add",     "b", "set",  "name",   0, "warnfatal", "claim", "own",    "False",   "xr",    FALSE)
 
 AllProgs == {ProgPass, ProgAddA, ProgAddB, ProgDropA, ProgRenAC, ProgMutate, ProgClear, ProgChase, ProgGrow,
-             ProgCount2, ProgCount4, ProgNever, ProgFatal}
+             ProgCount2, ProgCount4, ProgNever, ProgFatal, ProgRelabel}
 
 \* the program a call ran: looked up by the name the function found in its input
 ProgFor(in, name) ==
@@ -148,6 +150,8 @@ ReqOp(p, rq) ==
     [] p.req = "chase"  -> {Sel("k1", "name", "e1")} \cup
                            (IF "e1" \in NamesGiven(rq.extra, "k1") THEN {Sel("k2", "name", "e2")} ELSE {})
     [] p.req = "grow"   -> {Sel("k1", "labels", "g")} \cup {Sel("n-" \o o, "name", o) : o \in NamesGiven(rq.extra, "k1")}
+    \* relabel: the same requirement name, kind and apiVersion, but other match labels once something was supplied for it
+    [] p.req = "relabel" -> {Sel("k1", "labels", IF \E x \in rq.extra : x.k = "k1" THEN "g" ELSE "h")}
     [] p.req = "count"  -> {Sel("k1", "name", "x" \o ToString(IF Count(rq) < p.n THEN Count(rq) ELSE p.n))}
     [] OTHER            -> {}            \* none: no requirements at all
 
